@@ -7,6 +7,8 @@ import c10
 
 ID = 'C18'
 PKG = 'control'
+PKG_OF = {'VerifC18Version': 'version', 'VerifC18Dep': 'dependency', 'VerifC18Arch': 'dependency', 'VerifC18Changelog': 'changelog', 'VerifC18Race': 'control'}
+REPLAY_TIMEOUT_MS = 120000
 ROOTS = [MOD + '/version.VerifC18Version', MOD + '/dependency.VerifC18Dep', MOD + '/dependency.VerifC18Arch', MOD + '/control.VerifC18Para',
          MOD + '/control.VerifC18Typed', MOD + '/changelog.VerifC18Changelog']
 BOUNDS = {'quick': dict(version=5, arch=5, dep=4, para=5, changelog=4, typed=3), 'thorough': dict(version=6, arch=6, dep=5, para=6, changelog=6, typed=4)}
